@@ -198,6 +198,10 @@ def jobs(tier):
             stubs.append((r'vf::ctl(nu)?<vf::R<0> >::%s<' % k, hook_stub(k)))
         if has_action:
             stubs.append((r'^((void|bool) )?vf::%s<vf::R<0> >::apply0?(<|\()' % act, apply_stub(act, tr)))
+        elif act != 'nothing':
+            # actions disabled: the action must not even be reachable; should a changed dispatcher call it, the call is a failed precondition
+            stubs.append((r'^((void|bool) )?vf::%s<vf::R<0> >::apply0?(<|\()' % act,
+                          Contract(R('0', 'action-called-although-actions-are-disabled', ('C04',)), Clause('assigns', '')), 'opt'))
         j = Job(rname(act, ctl, a, m, tr), 'match_e' if tr == 'eager' else 'match_l', rname(act, ctl, a, m, tr), con, ('C04', 'C08', 'C02'),
                 stubs=stubs, prelude=match_prelude(tr),
                 harness=comb_harness('vf_' + INPUT_TYPES[(tr, 'lf_crlf')], tr, 'w_ret = $ENTRY(&in)').replace(
